@@ -7,4 +7,576 @@ import CoreBGP.Spec.Update
 namespace CoreBGP.Lemmas
 open CoreBGP CoreBGP.Model
 
+/-! ## small arithmetic / byte facts -/
+
+theorem u8_ofNat_eq_of_mod (a b : Nat) (h : a % 256 = b % 256) : UInt8.ofNat a = UInt8.ofNat b := by
+  apply UInt8.toNat_inj.mp
+  simp only [UInt8.toNat_ofNat']
+  exact h
+
+theorem u8_ofNat_toNat (x : UInt8) : UInt8.ofNat x.toNat = x := by
+  apply UInt8.toNat_inj.mp
+  simp only [UInt8.toNat_ofNat']
+  exact Nat.mod_eq_of_lt x.toNat_lt
+
+theorem testBit_eq (n k : Nat) : n.testBit k = decide (n / 2^k % 2 = 1) := by
+  simp only [Nat.testBit, Nat.shiftRight_eq_div_pow, Nat.one_and_eq_mod_two]
+  by_cases h : n / 2^k % 2 = 1 <;> simp [h]
+
+theorem prop_eq_bool (P : Prop) [Decidable P] (o : Bool) : (P = (o = true)) ↔ (decide P = o) := by
+  cases o <;> by_cases h : P <;> simp [h]
+
+theorem be32Bytes_be32 (a b c d : UInt8) : be32Bytes (be32 a b c d) = [a, b, c, d] := by
+  have ha := a.toNat_lt
+  have hb := b.toNat_lt
+  have hc := c.toNat_lt
+  have hd := d.toNat_lt
+  simp only [be32Bytes, be32, UInt32.toNat_ofNat']
+  congr 1
+  · conv => rhs; rw [← u8_ofNat_toNat a]
+    apply u8_ofNat_eq_of_mod; omega
+  congr 1
+  · conv => rhs; rw [← u8_ofNat_toNat b]
+    apply u8_ofNat_eq_of_mod; omega
+  congr 1
+  · conv => rhs; rw [← u8_ofNat_toNat c]
+    apply u8_ofNat_eq_of_mod; omega
+  congr 1
+  · conv => rhs; rw [← u8_ofNat_toNat d]
+    apply u8_ofNat_eq_of_mod; omega
+
+/-! ## flags -/
+
+theorem notifData_eq (code : UInt8) (v : Bytes) :
+    notifDataForAttrBasedErr code v = Spec.attrErrData code v := by
+  unfold notifDataForAttrBasedErr Spec.attrErrData
+  congr 2
+  split
+  · simp only [be16Bytes, len16, Spec.u16, UInt16.toNat_ofNat']
+    congr 1
+    · apply u8_ofNat_eq_of_mod; omega
+    · congr 1; apply u8_ofNat_eq_of_mod; omega
+  · rfl
+
+theorem validateFlags_conflict (flags code : UInt8) (v : Bytes) (o t : Bool)
+    (h : flagOptional flags ≠ o ∨ flagTransitive flags ≠ t) :
+    validateFlags flags code v o t = some (.taw code (some ⟨3, 4, Spec.attrErrData code v⟩)) := by
+  unfold validateFlags
+  rw [if_pos h, notifData_eq]
+  rfl
+
+theorem validateFlags_ok (flags code : UInt8) (v : Bytes) (o t : Bool)
+    (h1 : flagOptional flags = o) (h2 : flagTransitive flags = t) :
+    validateFlags flags code v o t = none := by
+  unfold validateFlags
+  rw [if_neg]
+  simp [h1, h2]
+
+theorem attrLenBad_eq (code : UInt8) (v : Bytes) :
+    attrLenBad code v = ⟨3, 5, Spec.attrErrData code v⟩ := by
+  unfold attrLenBad
+  rw [notifData_eq]
+  rfl
+
+/-! ## list-valued attributes -/
+
+theorem u32set_go_rt : ∀ (b : Bytes), b.length % 4 = 0 →
+    ∃ l, decodeUint32Set.go b = some l ∧ (l.map be32Bytes).flatten = b
+  | [], _ => ⟨[], rfl, rfl⟩
+  | [_], h => by simp at h
+  | [_, _], h => by simp at h
+  | [_, _, _], h => by simp at h
+  | a :: b :: c :: d :: rest, h => by
+    have h' : rest.length % 4 = 0 := by simp only [List.length_cons] at h; omega
+    obtain ⟨l, hl, hf⟩ := u32set_go_rt rest h'
+    refine ⟨be32 a b c d :: l, by simp [decodeUint32Set.go, hl], ?_⟩
+    simp only [List.map_cons, List.flatten_cons, be32Bytes_be32, hf]
+    rfl
+
+theorem u32set_eq_go (b : Bytes) (h : b ≠ []) : decodeUint32Set b = decodeUint32Set.go b := by
+  unfold decodeUint32Set
+  split
+  · exact absurd rfl h
+  · rfl
+
+theorem chunks4_rt : ∀ (b : Bytes), b.length % 4 = 0 →
+    (chunks4 b).flatten = b ∧ ∀ a ∈ chunks4 b, a.length = 4
+  | [], _ => ⟨rfl, by simp [chunks4]⟩
+  | [_], h => by simp at h
+  | [_, _], h => by simp at h
+  | [_, _, _], h => by simp at h
+  | a :: b :: c :: d :: rest, h => by
+    have h' : rest.length % 4 = 0 := by simp only [List.length_cons] at h; omega
+    obtain ⟨h1, h2⟩ := chunks4_rt rest h'
+    simp only [chunks4, List.flatten_cons, h1, List.mem_cons]
+    refine ⟨rfl, ?_⟩
+    intro x hx
+    rcases hx with rfl | hx
+    · rfl
+    · exact h2 x hx
+
+theorem exists_cons12 {α} (b : List α) (h : 12 ≤ b.length) :
+    ∃ a1 a2 a3 a4 a5 a6 a7 a8 a9 a10 a11 a12 rest,
+      b = a1 :: a2 :: a3 :: a4 :: a5 :: a6 :: a7 :: a8 :: a9 :: a10 :: a11 :: a12 :: rest := by
+  rcases b with _ | ⟨a1, _ | ⟨a2, _ | ⟨a3, _ | ⟨a4, _ | ⟨a5, _ | ⟨a6, _ | ⟨a7, _ | ⟨a8, _ | ⟨a9, _ | ⟨a10, _ | ⟨a11, _ | ⟨a12, rest⟩⟩⟩⟩⟩⟩⟩⟩⟩⟩⟩⟩
+  all_goals first
+    | exact ⟨_, _, _, _, _, _, _, _, _, _, _, _, _, rfl⟩
+    | (simp only [List.length_cons, List.length_nil] at h; omega)
+
+def lcWire (x : UInt32 × UInt32 × UInt32) : Bytes :=
+  be32Bytes x.1 ++ be32Bytes x.2.1 ++ be32Bytes x.2.2
+
+theorem largeComms_rt : ∀ (n : Nat) (b : Bytes), b.length = 12 * n →
+    ((largeComms b).map lcWire).flatten = b := by
+  intro n
+  induction n with
+  | zero =>
+    intro b h
+    have : b = [] := List.eq_nil_of_length_eq_zero (by omega)
+    subst this; rfl
+  | succ n ih =>
+    intro b h
+    obtain ⟨a1, a2, a3, a4, a5, a6, a7, a8, a9, a10, a11, a12, rest, rfl⟩ := exists_cons12 b (by omega)
+    have h' : rest.length = 12 * n := by simp only [List.length_cons] at h; omega
+    simp only [largeComms, List.map_cons, List.flatten_cons, ih rest h', lcWire, be32Bytes_be32]
+    rfl
+
+/-! ## AS_PATH -/
+
+theorem be32_toNat (a b c d : UInt8) : (be32 a b c d).toNat = Spec.n32 a b c d := by
+  have ha := a.toNat_lt
+  have hb := b.toNat_lt
+  have hc := c.toNat_lt
+  have hd := d.toNat_lt
+  simp only [be32, Spec.n32, UInt32.toNat_ofNat']
+  omega
+
+theorem u32set_go_words : ∀ (b : Bytes) (l : List UInt32), decodeUint32Set.go b = some l →
+    l.map (·.toNat) = Spec.asPathSegs.words b
+  | [], l, h => by
+    simp only [decodeUint32Set.go, Option.some.injEq] at h
+    subst h; rfl
+  | [_], l, h => by simp [decodeUint32Set.go] at h
+  | [_, _], l, h => by simp [decodeUint32Set.go] at h
+  | [_, _, _], l, h => by simp [decodeUint32Set.go] at h
+  | a :: b :: c :: d :: rest, l, h => by
+    simp only [decodeUint32Set.go, Option.map_eq_some_iff] at h
+    obtain ⟨l', hl', rfl⟩ := h
+    simp only [List.map_cons, Spec.asPathSegs.words, be32_toNat, u32set_go_words rest l' hl']
+
+/-- the segment grammar only accepts values of even length that are empty or ≥ 6 long -/
+theorem asPathSegs_len : ∀ (sfuel : Nat) (b : Bytes) (segs : List (UInt8 × List Nat)),
+    Spec.asPathSegs sfuel b = some segs → b.length % 2 = 0 ∧ (b.length = 0 ∨ 6 ≤ b.length) := by
+  intro sfuel
+  induction sfuel with
+  | zero =>
+    intro b segs h
+    cases b with
+    | nil => simp
+    | cons a b => simp [Spec.asPathSegs] at h
+  | succ sfuel ih =>
+    intro b segs h
+    match b, h with
+    | [], _ => simp
+    | [_], h => simp [Spec.asPathSegs] at h
+    | t :: n :: rest, h =>
+      simp only [Spec.asPathSegs] at h
+      split at h
+      · simp at h
+      · rename_i hc
+        simp only [Option.map_eq_some_iff] at h
+        obtain ⟨segs', hs, _⟩ := h
+        have := ih _ _ hs
+        have hn : n.toNat ≠ 0 := by
+          intro h0
+          apply hc
+          right; left
+          apply UInt8.toNat_inj.mp
+          simpa using h0
+        simp only [List.length_drop, List.length_cons] at this ⊢
+        omega
+
+def asPathRel (acc p : ASPath) (segs : List (UInt8 × List Nat)) : Prop :=
+  p.asSet.map (·.toNat) = acc.asSet.map (·.toNat) ++ (segs.filter (·.1 = 1)).flatMap (·.2) ∧
+  p.asSequence.map (·.toNat) = acc.asSequence.map (·.toNat) ++ (segs.filter (·.1 = 2)).flatMap (·.2)
+
+def asPathErr (e : Err) : Prop := ∃ n, e = .taw 2 (some n) ∧ n.code = 3 ∧ (n.sub = 5 ∨ n.sub = 11)
+
+theorem asPathErr_malformed : asPathErr asPathMalformed := ⟨_, rfl, rfl, Or.inr rfl⟩
+
+theorem asPathErr_len (b : Bytes) : asPathErr (.taw Gen.PATH_ATTR_AS_PATH (some (attrLenBad Gen.PATH_ATTR_AS_PATH b))) :=
+  ⟨_, rfl, rfl, Or.inl rfl⟩
+
+theorem asPathLoop_spec : ∀ (fuel : Nat) (b : Bytes) (acc : ASPath) (sfuel : Nat),
+    b.length < fuel → b.length ≤ sfuel →
+    match decodeASPathLoop fuel b acc with
+    | .ok p => ∃ segs, Spec.asPathSegs sfuel b = some segs ∧ asPathRel acc p segs
+    | .error e => Spec.asPathSegs sfuel b = none ∧ asPathErr e := by
+  intro fuel
+  induction fuel with
+  | zero => intro b acc sfuel h; omega
+  | succ fuel ih =>
+    intro b acc sfuel hf hs
+    unfold decodeASPathLoop
+    by_cases h0 : b.length = 0
+    · have : b = [] := List.eq_nil_of_length_eq_zero h0
+      subst this
+      simp [Spec.asPathSegs, asPathRel]
+    · rw [if_neg h0]
+      by_cases h6 : b.length < 6 ∨ b.length % 2 ≠ 0
+      · rw [if_pos h6]
+        refine ⟨?_, asPathErr_len b⟩
+        cases hsp : Spec.asPathSegs sfuel b with
+        | none => rfl
+        | some segs => have := asPathSegs_len _ _ _ hsp; omega
+      · rw [if_neg h6]
+        match b, hf, hs, h0, h6 with
+        | [], _, _, h0, _ => simp at h0
+        | [_], _, _, _, h6 => simp at h6
+        | t :: n :: rest, hf, hs, _, h6 =>
+          match sfuel, hs with
+          | 0, hs => simp at hs
+          | sfuel + 1, hs =>
+          simp only [List.length_cons] at hf hs h6
+          simp only [Spec.asPathSegs]
+          by_cases hn : n.toNat * 4 = 0
+          · simp only [hn, if_true]
+            refine ⟨?_, asPathErr_malformed⟩
+            have : n = 0 := by
+              apply UInt8.toNat_inj.mp
+              simp; omega
+            simp [this]
+          · have hn' : n ≠ 0 := by
+              intro h; subst h; simp at hn
+            simp only [hn, if_false]
+            by_cases hr : rest.length < n.toNat * 4
+            · simp only [hr, if_true]
+              refine ⟨?_, asPathErr_malformed⟩
+              have : rest.length < 4 * n.toNat := by omega
+              simp [this]
+            · have hr' : ¬ rest.length < 4 * n.toNat := by omega
+              simp only [hr, if_false]
+              have hlt : (rest.take (n.toNat * 4)).length = n.toNat * 4 := by
+                rw [List.length_take]; omega
+              have htake : (rest.take (n.toNat * 4)).length % 4 = 0 := by
+                omega
+              have hne : rest.take (n.toNat * 4) ≠ [] := by
+                intro h
+                rw [h] at hlt
+                simp at hlt; omega
+              obtain ⟨l, hl, _⟩ := u32set_go_rt _ htake
+              rw [u32set_eq_go _ hne, hl]
+              have hw := u32set_go_words _ _ hl
+              simp only
+              have hdl : (rest.drop (n.toNat * 4)).length < fuel := by
+                rw [List.length_drop]; omega
+              have hds : (rest.drop (n.toNat * 4)).length ≤ sfuel := by
+                rw [List.length_drop]; omega
+              rw [Nat.mul_comm 4 n.toNat]
+              by_cases ht1 : t = 1
+              · subst ht1
+                have hcond : ¬ (((1 : UInt8) ≠ 1 ∧ (1 : UInt8) ≠ 2) ∨ n = 0 ∨ rest.length < n.toNat * 4) := by
+                  simp [hn', hr]
+                simp only [if_true]
+                rw [if_neg hcond]
+                have := ih (rest.drop (n.toNat * 4)) { acc with asSet := acc.asSet ++ l } sfuel hdl hds
+                generalize decodeASPathLoop fuel _ _ = r at this ⊢
+                cases r with
+                | error e =>
+                  simp only at this ⊢
+                  exact ⟨by rw [this.1]; rfl, this.2⟩
+                | ok p =>
+                  simp only at this ⊢
+                  obtain ⟨segs, hs1, hs2, hs3⟩ := this
+                  refine ⟨_, by rw [hs1]; rfl, ?_, ?_⟩
+                  · simp only [hs2, List.map_append, hw]
+                    simp
+                  · simp only [hs3]
+                    simp
+              · by_cases ht2 : t = 2
+                · subst ht2
+                  have hcond : ¬ (((2 : UInt8) ≠ 1 ∧ (2 : UInt8) ≠ 2) ∨ n = 0 ∨ rest.length < n.toNat * 4) := by
+                    simp [hn', hr]
+                  simp only [ht1, if_true, if_false]
+                  rw [if_neg hcond]
+                  have := ih (rest.drop (n.toNat * 4)) { acc with asSequence := acc.asSequence ++ l } sfuel hdl hds
+                  generalize decodeASPathLoop fuel _ _ = r at this ⊢
+                  cases r with
+                  | error e =>
+                    simp only at this ⊢
+                    exact ⟨by rw [this.1]; rfl, this.2⟩
+                  | ok p =>
+                    simp only at this ⊢
+                    obtain ⟨segs, hs1, hs2, hs3⟩ := this
+                    refine ⟨_, by rw [hs1]; rfl, ?_, ?_⟩
+                    · simp only [hs2]
+                      simp
+                    · simp only [hs3, List.map_append, hw]
+                      simp
+                · simp only [ht1, ht2, if_false]
+                  refine ⟨?_, asPathErr_malformed⟩
+                  rw [if_pos (Or.inl ⟨ht1, ht2⟩)]
+
+/-! ## prefixes and MP attributes (C19) -/
+
+theorem slice0 (b : Bytes) (n : Nat) (h : n ≤ b.length) : slice? b 0 n = some (b.take n) := by
+  unfold slice?
+  rw [if_pos ⟨Nat.zero_le _, h⟩]
+  simp
+
+theorem sliceFrom_le (b : Bytes) (n : Nat) (h : n ≤ b.length) : sliceFrom? b n = some (b.drop n) := by
+  unfold sliceFrom?
+  rw [if_pos h]
+
+def maxBits (ipv6 : Bool) : Nat := if ipv6 then 128 else 32
+
+/-- `pad` of `Props/C19.lean`, restated on the components -/
+def padPfx (ipv6 : Bool) (bits : Nat) (addr : Bytes) : Prefix :=
+  ⟨UInt8.ofNat bits, addr ++ List.replicate ((if ipv6 then 16 else 4) - addr.length) 0⟩
+
+theorem octets_toNat (bl : UInt8) (h : bl.toNat ≤ 128) : ((bl + 7) / 8).toNat = (bl.toNat + 7) / 8 := by
+  rw [UInt8.toNat_div, UInt8.toNat_add]
+  have h7 : (7 : UInt8).toNat = 7 := rfl
+  have h8 : (8 : UInt8).toNat = 8 := rfl
+  rw [h7, h8]
+  omega
+
+theorem decodePrefix_cons (ipv6 : Bool) (l : UInt8) (r : Bytes) :
+    decodePrefix (l :: r) ipv6 =
+      if l.toNat > maxBits ipv6 ∨ r.length < (l.toNat + 7) / 8 then none
+      else some (padPfx ipv6 l.toNat (r.take ((l.toNat + 7) / 8)), r.drop ((l.toNat + 7) / 8)) := by
+  unfold decodePrefix
+  simp only
+  cases ipv6
+  · simp only [maxBits, Bool.not_false, Bool.true_and, Bool.false_and, Bool.or_false,
+      Bool.false_eq_true, if_false, decide_eq_true_eq]
+    by_cases h : l > 32
+    · have h' : l.toNat > 32 := by simpa [UInt8.lt_iff_toNat_lt] using h
+      rw [if_pos h, if_pos (Or.inl h')]
+    · have h' : ¬ l.toNat > 32 := by simpa [UInt8.lt_iff_toNat_lt] using h
+      rw [if_neg h, octets_toNat l (by omega)]
+      by_cases hr : r.length < (l.toNat + 7) / 8
+      · rw [if_pos hr, if_pos (Or.inr hr)]
+      · rw [if_neg hr, if_neg (by omega), if_neg (by omega)]
+        simp only [padPfx, u8_ofNat_toNat, List.length_take, Bool.false_eq_true, if_false]
+        rw [Nat.min_eq_left (by omega)]
+  · simp only [maxBits, Bool.not_true, Bool.true_and, Bool.false_and, Bool.false_or,
+      if_true, decide_eq_true_eq]
+    by_cases h : l > 128
+    · have h' : l.toNat > 128 := by simpa [UInt8.lt_iff_toNat_lt] using h
+      rw [if_pos h, if_pos (Or.inl h')]
+    · have h' : ¬ l.toNat > 128 := by simpa [UInt8.lt_iff_toNat_lt] using h
+      rw [if_neg h, octets_toNat l (by omega)]
+      by_cases hr : r.length < (l.toNat + 7) / 8
+      · rw [if_pos hr, if_pos (Or.inr hr)]
+      · rw [if_neg hr, if_neg (by omega), if_neg (by omega)]
+        simp only [padPfx, u8_ofNat_toNat, List.length_take, if_true]
+        rw [Nat.min_eq_left (by omega)]
+
+theorem prefixesLoop_spec (ipv6 : Bool) : ∀ (fuel : Nat) (b : Bytes) (acc : List Prefix) (sfuel : Nat),
+    b.length < fuel → b.length ≤ sfuel →
+    decodePrefixesLoop fuel b ipv6 acc =
+      (Spec.parsePfxs (maxBits ipv6) false sfuel b).map
+        (fun ps => acc ++ ps.map (fun q => padPfx ipv6 q.bits q.addr)) := by
+  intro fuel
+  induction fuel with
+  | zero => intro b acc sfuel h; omega
+  | succ fuel ih =>
+    intro b acc sfuel hf hs
+    unfold decodePrefixesLoop
+    match b, hf, hs with
+    | [], _, _ => simp [Spec.parsePfxs]
+    | l :: r, hf, hs =>
+      match sfuel, hs with
+      | 0, hs => simp at hs
+      | sfuel + 1, hs =>
+        simp only [List.length_cons] at hf hs
+        rw [if_neg (by simp), decodePrefix_cons]
+        simp only [Spec.parsePfxs]
+        by_cases hc : l.toNat > maxBits ipv6 ∨ r.length < (l.toNat + 7) / 8
+        · rw [if_pos hc]
+          simp [hc]
+        · rw [if_neg hc]
+          simp only [Bool.false_eq_true, if_false, hc]
+          rw [ih _ _ sfuel (by rw [List.length_drop]; omega) (by rw [List.length_drop]; omega)]
+          cases Spec.parsePfxs (maxBits ipv6) false sfuel (List.drop ((l.toNat + 7) / 8) r) with
+          | none => rfl
+          | some ps => simp
+
+theorem addPathLoop_spec (ipv6 : Bool) : ∀ (fuel : Nat) (b : Bytes) (acc : List AddPathPrefix) (sfuel : Nat),
+    b.length < fuel → b.length ≤ sfuel →
+    decodeAddPathPrefixesLoop fuel b ipv6 acc =
+      (Spec.parsePfxs (maxBits ipv6) true sfuel b).map
+        (fun ps => acc ++ ps.map (fun q => ⟨UInt32.ofNat (q.id.getD 0), padPfx ipv6 q.bits q.addr⟩)) := by
+  intro fuel
+  induction fuel with
+  | zero => intro b acc sfuel h; omega
+  | succ fuel ih =>
+    intro b acc sfuel hf hs
+    unfold decodeAddPathPrefixesLoop
+    match sfuel, b, hf, hs with
+    | _, [], _, _ => simp [Spec.parsePfxs]
+    | 0, _ :: _, _, hs => simp at hs
+    | sfuel + 1, [_], _, _ => simp [Spec.parsePfxs]
+    | sfuel + 1, [_, _], _, _ => simp [Spec.parsePfxs]
+    | sfuel + 1, [_, _, _], _, _ => simp [Spec.parsePfxs]
+    | sfuel + 1, [_, _, _, _], _, _ => simp [Spec.parsePfxs]
+    | sfuel + 1, a :: b1 :: c :: d :: l :: r, hf, hs =>
+        simp only [List.length_cons] at hf hs
+        rw [if_neg (by simp)]
+        simp only [decodePrefix_cons]
+        simp only [Spec.parsePfxs]
+        by_cases hc : l.toNat > maxBits ipv6 ∨ r.length < (l.toNat + 7) / 8
+        · rw [if_pos hc]
+          simp [hc]
+        · rw [if_neg hc]
+          simp only [if_true, hc, if_false]
+          rw [ih _ _ sfuel (by rw [List.length_drop]; omega) (by rw [List.length_drop]; omega)]
+          cases Spec.parsePfxs (maxBits ipv6) true sfuel (List.drop ((l.toNat + 7) / 8) r) with
+          | none => rfl
+          | some ps =>
+            simp only [Option.map_some, List.map_cons, Option.getD_some, List.append_assoc,
+              List.singleton_append, be32, Spec.n32]
+
+theorem u32_n32 (a b c d : UInt8) : Spec.u32 (Spec.n32 a b c d) = [a, b, c, d] := by
+  have ha := a.toNat_lt
+  have hb := b.toNat_lt
+  have hc := c.toNat_lt
+  have hd := d.toNat_lt
+  simp only [Spec.u32, Spec.n32]
+  congr 1
+  · conv => rhs; rw [← u8_ofNat_toNat a]
+    apply u8_ofNat_eq_of_mod; omega
+  congr 1
+  · conv => rhs; rw [← u8_ofNat_toNat b]
+    apply u8_ofNat_eq_of_mod; omega
+  congr 1
+  · conv => rhs; rw [← u8_ofNat_toNat c]
+    apply u8_ofNat_eq_of_mod; omega
+  congr 1
+  · conv => rhs; rw [← u8_ofNat_toNat d]
+    apply u8_ofNat_eq_of_mod; omega
+
+theorem n32_lt (a b c d : UInt8) : Spec.n32 a b c d < 4294967296 := by
+  have ha := a.toNat_lt
+  have hb := b.toNat_lt
+  have hc := c.toNat_lt
+  have hd := d.toNat_lt
+  simp only [Spec.n32]
+  omega
+
+theorem n32_u32 (i : Nat) (h : i < 4294967296) :
+    Spec.n32 (UInt8.ofNat (i / 16777216)) (UInt8.ofNat (i / 65536 % 256)) (UInt8.ofNat (i / 256 % 256))
+      (UInt8.ofNat (i % 256)) = i := by
+  simp only [Spec.n32, UInt8.toNat_ofNat']
+  omega
+
+theorem wf_mk (mb : Nat) (addPath : Bool) (id : Option Nat) (bits : Nat) (addr : Bytes)
+    (h1 : bits ≤ mb) (h2 : addr.length = (bits + 7) / 8) (h3 : id.isSome = addPath)
+    (h4 : ∀ i, id = some i → i < 4294967296) : Spec.WellFormedPfx mb addPath ⟨id, bits, addr⟩ :=
+  ⟨h1, h2, h3, h4⟩
+
+theorem parsePfxs_tr (mb : Nat) (addPath : Bool) : ∀ (sfuel : Nat) (b : Bytes) (ps : List Spec.Pfx),
+    Spec.parsePfxs mb addPath sfuel b = some ps →
+    (ps.map Spec.pfxWire).flatten = b ∧ ∀ p ∈ ps, Spec.WellFormedPfx mb addPath p := by
+  intro sfuel
+  induction sfuel with
+  | zero =>
+    intro b ps h
+    cases b with
+    | nil => simp only [Spec.parsePfxs, Option.some.injEq] at h; subst h; simp
+    | cons x xs => simp [Spec.parsePfxs] at h
+  | succ sfuel ih =>
+    intro b ps h
+    cases b with
+    | nil => simp only [Spec.parsePfxs, Option.some.injEq] at h; subst h; simp
+    | cons x xs =>
+      simp only [Spec.parsePfxs] at h
+      cases addPath with
+      | false =>
+        simp only [Bool.false_eq_true, if_false] at h
+        split at h
+        · simp at h
+        · rename_i hc
+          simp only [Option.map_eq_some_iff] at h
+          obtain ⟨ps', hps', rfl⟩ := h
+          obtain ⟨h1, h2⟩ := ih _ _ hps'
+          constructor
+          · simp only [List.map_cons, List.flatten_cons, h1, Spec.pfxWire, u8_ofNat_toNat,
+              List.nil_append, List.cons_append, List.take_append_drop]
+          · intro p hp
+            rcases List.mem_cons.mp hp with rfl | hp
+            · refine wf_mk _ _ _ _ _ (by omega) ?_ rfl (by simp)
+              simp only [List.length_take]
+              omega
+            · exact h2 p hp
+      | true =>
+        simp only [if_true] at h
+        match xs, h with
+        | [], h => simp at h
+        | [_], h => simp at h
+        | [_, _], h => simp at h
+        | [_, _, _], h => simp at h
+        | b1 :: c :: d :: l :: r, h =>
+          simp only at h
+          split at h
+          · simp at h
+          · rename_i hc
+            simp only [Option.map_eq_some_iff] at h
+            obtain ⟨ps', hps', rfl⟩ := h
+            obtain ⟨h1, h2⟩ := ih _ _ hps'
+            constructor
+            · simp only [List.map_cons, List.flatten_cons, h1, Spec.pfxWire, u8_ofNat_toNat, u32_n32,
+                List.nil_append, List.cons_append, List.take_append_drop]
+            · intro p hp
+              rcases List.mem_cons.mp hp with rfl | hp
+              · refine wf_mk _ _ _ _ _ (by omega) ?_ rfl ?_
+                · simp only [List.length_take]
+                  omega
+                · intro i hi
+                  simp only [Option.some.injEq] at hi
+                  subst hi
+                  exact n32_lt _ _ _ _
+              · exact h2 p hp
+
+theorem parsePfxs_rt (mb : Nat) (hmb : mb ≤ 128) (addPath : Bool) : ∀ (ps : List Spec.Pfx) (sfuel : Nat),
+    (∀ p ∈ ps, Spec.WellFormedPfx mb addPath p) →
+    (ps.map Spec.pfxWire).flatten.length ≤ sfuel →
+    Spec.parsePfxs mb addPath sfuel (ps.map Spec.pfxWire).flatten = some ps := by
+  intro ps
+  induction ps with
+  | nil => intro sfuel _ _; simp [Spec.parsePfxs]
+  | cons p ps ih =>
+    intro sfuel hwf hs
+    obtain ⟨id, bits, addr⟩ := p
+    obtain ⟨hb, ha, hid, hlt⟩ := hwf _ (List.mem_cons_self)
+    simp only at hb ha hid hlt
+    have hwf' : ∀ p ∈ ps, Spec.WellFormedPfx mb addPath p := fun p hp => hwf p (List.mem_cons_of_mem _ hp)
+    have hbits : (UInt8.ofNat bits).toNat = bits := by
+      simp only [UInt8.toNat_ofNat']; omega
+    cases addPath with
+    | false =>
+      have : id = none := by cases id <;> simp_all
+      subst this
+      simp only [List.map_cons, List.flatten_cons, Spec.pfxWire, List.nil_append, List.cons_append,
+        List.length_cons, List.length_append] at hs ⊢
+      match sfuel, hs with
+      | sfuel + 1, hs =>
+        simp only [Spec.parsePfxs, Bool.false_eq_true, if_false, hbits]
+        rw [if_neg (by simp only [List.length_append]; omega)]
+        rw [← ha, List.drop_left, List.take_left, ih sfuel hwf' (by omega)]
+        rfl
+    | true =>
+      match id, hid, hlt with
+      | some i, _, hlt =>
+      have hi : i < 4294967296 := hlt i rfl
+      simp only [List.map_cons, List.flatten_cons, Spec.pfxWire, Spec.u32, List.nil_append, List.cons_append,
+        List.length_cons, List.length_append] at hs ⊢
+      match sfuel, hs with
+      | sfuel + 1, hs =>
+        simp only [Spec.parsePfxs, if_true, hbits, n32_u32 i hi]
+        rw [if_neg (by simp only [List.length_append]; omega)]
+        rw [← ha, List.drop_left, List.take_left, ih sfuel hwf' (by omega)]
+        rfl
+
 end CoreBGP.Lemmas
